@@ -8,7 +8,7 @@ import concurrent.futures
 import json
 import random
 import signal
-from slices import actor, engine, sysrun
+from slices import actor, engine, root, sysrun
 
 WHEN = ['immediately', 'first_start', 'all_blocked', 'between', 'after_done']
 
@@ -42,7 +42,8 @@ def sweeps(ck):
 
 def run(ck):
     engine.check_engine(ck, 'C10', actor.proj(keep_out=lambda o: o.startswith('ERR:'), keys=('alive', 'zombies', 'exited')),
-                        'live processes + zombies + actor exit + errors', n_sys_quick=12, fail_p=0.5, extra=sweeps)
+                        'live processes + zombies + actor exit + errors', n_sys_quick=12, fail_p=0.5, extra=sweeps,
+                        n_root_quick=150, root_projection=root.status_only, root_what='whether and with which status run returns')
 
 
 def replay(ck, path):
